@@ -1639,6 +1639,51 @@ where
     }
 }
 
+/// Read-only snapshot of a builder's source program, for external verification harnesses.
+///
+/// Only compiled with the `verif-hooks` feature; it never mutates the builder.
+#[cfg(feature = "verif-hooks")]
+#[derive(Debug, Clone)]
+pub struct VerifSnapshot<F> {
+    /// Expression DAG nodes in creation order (`ExprId(i)` is `nodes[i]`).
+    pub nodes: Vec<crate::expr::Expr<F>>,
+    /// Pending `connect(a, b)` pairs.
+    pub connects: Vec<(ExprId, ExprId)>,
+    /// Per non-primitive call: `(op_id, op_type, input exprs, output exprs)`.
+    #[allow(clippy::type_complexity)]
+    pub npo_calls: Vec<(NonPrimitiveOpId, NpoTypeId, Vec<Vec<ExprId>>, Vec<Vec<ExprId>>)>,
+    /// Wire tags registered so far.
+    pub tags: Vec<(String, ExprId)>,
+}
+
+#[cfg(feature = "verif-hooks")]
+impl<F: Field> CircuitBuilder<F> {
+    /// Clone the expression graph, pending connects and non-primitive call list.
+    pub fn verif_snapshot(&self) -> VerifSnapshot<F> {
+        VerifSnapshot {
+            nodes: self.expr_builder.graph().nodes().to_vec(),
+            connects: self.expr_builder.pending_connects().to_vec(),
+            npo_calls: self
+                .non_primitive_ops
+                .iter()
+                .map(|d| {
+                    (
+                        d.op_id,
+                        d.op_type.clone(),
+                        d.input_exprs.clone(),
+                        d.output_exprs.clone(),
+                    )
+                })
+                .collect(),
+            tags: self
+                .tag_to_expr
+                .iter()
+                .map(|(t, e)| (t.clone(), *e))
+                .collect(),
+        }
+    }
+}
+
 /// Witness hint for extension field decomposition.
 ///
 /// At runtime, extracts the basis coefficients from an extension field element
